@@ -93,7 +93,92 @@ class CrashSpec(Spec):
         return doc
 
 
+class SchedSpec(Spec):
+    engine = "E-SCHED"
+    level = "exploration"
+    quick_budget = 50
+    thorough_budget = 540
+    run_timeout = 600
+    rule = ("seeded (back end tree-git/bare-git, mode threads-sharing-one-store / processes-with-own-stores, pre-state of 1-3 members, 2-3 operations from "
+            "conditional/unconditional puts on new/existing names with same/different UIDs and deletes); per operation set: every depth-1 pre-emption "
+            "(node parked at its k-th yield point while the others run to completion; sampled in quick, measured coverage reported) plus PCT (d<=3) and "
+            "random-walk schedules; yield points = every SimFS event and, in thread mode, every line of xandikos/store/*.py. Oracle: some sequential "
+            "order of the same real code on a copy of the pre-state gives the same results and final contents. Non-trivial: schedules with >=1 context "
+            "switch strictly inside an operation; distinct by interleaving signature (sequence of (node, yield label, next node))")
+    assumptions = (
+        "sampling of schedules; depth-1 pre-emptions are enumerated per operation set up to the budget, deeper ones only probabilistically (PCT)",
+        "'processes' are independent store/Repo object graphs in one interpreter on one directory; OS-level effects (signals, NFS O_EXCL) are not modelled",
+        "xandikos never blocks on a lock (contention raises), so parking a node is always legal",
+    )
+
+    def run(self, prop, seed, tier, tag):
+        from . import world
+        from .engines import sched
+
+        world.install_seams()
+        return sched.SchedRun(seed, tier, tag).run()
+
+    def replay(self, doc, tag):
+        from . import world
+        from .engines import sched
+
+        world.install_seams()
+        return sched.SchedRun(doc.get("seed", 0), "thorough", tag, plan=doc["plan"]).run()
+
+    def nontrivial_keys(self, res):
+        return res.get("signatures", [])
+
+    def sample(self, res):
+        s = res.get("samples") or []
+        return s[0] if s else None
+
+    def collect(self, agg, res):
+        d = res.get("depth1") or [0, 0]
+        agg.add_stats({"schedules": res.get("schedules", 0), "depth1_positions_run": d[0], "depth1_positions_total": d[1]})
+
+    def essential(self, agg):
+        if agg.stats.get("fault.preemption", 0) < 20:
+            return "fewer than 20 context switches inside operations"
+        return None
+
+    def extra_coverage(self, agg):
+        return {"schedules": agg.stats.get("schedules", 0), "distinct_interleavings": len(agg.nontrivial),
+                "depth1_coverage": "%d of %d depth-1 pre-emption positions of the sampled operation sets" % (agg.stats.get("depth1_positions_run", 0), agg.stats.get("depth1_positions_total", 0))}
+
+    def replay_doc(self, prop, v, res):
+        plan = res["plan"]
+        if v.get("schedule") is not None:
+            plan = dict(plan, schedules=[v["schedule"]])
+        return {"engine": "sched", "prop": prop, "seed": v.get("seed"), "plan": plan,
+                "expect": {"oracle": v["oracle"], "sig": v["sig"]}, "detail": v.get("detail"), "digest": None, "minimised": True}
+
+    def minimise(self, prop, v, res, farm):
+        want = (v["oracle"], json.dumps(v["sig"], sort_keys=True))
+        plan = res["plan"]
+        sc = v.get("schedule") or plan["schedules"][0]
+        items = sorted(sc["switch"].items(), key=lambda kv: (kv[0].startswith("f"), int(kv[0].lstrip("f"))))
+
+        def test_many(cands):
+            docs = [{"prop": prop, "seed": v.get("seed"), "plan": dict(plan, schedules=[{"first": sc["first"], "switch": dict(c)}])} for c in cands]
+            outs = {}
+            farm.map(self.replay, [(d, "min-C05-%d" % i) for i, d in enumerate(docs)], on_result=lambda i, a, o: outs.__setitem__(i, o))
+            ret = []
+            for i in range(len(docs)):
+                o = outs.get(i, {})
+                ret.append(bool(o.get("ok") and any((x["oracle"], json.dumps(x["sig"], sort_keys=True)) == want for x in o["result"].get("violations", []))))
+            return ret
+
+        if not test_many([items])[0]:
+            return None
+        small = ddmin(items, test_many)
+        doc = self.replay_doc(prop, v, {"plan": dict(plan, schedules=[{"first": sc["first"], "switch": dict(small)}])})
+        doc["original_switches"] = len(items)
+        return doc
+
+
 def spec_for(prop):
     if prop == "C04":
         return CrashSpec()
+    if prop == "C05":
+        return SchedSpec()
     raise KeyError(prop)
